@@ -441,6 +441,43 @@ func (c *Cluster) ExecMetaLookup(addr string, startRow, stopRow []byte) (OpResul
 	return OpResult{Cells: MetaCells(best)}, best
 }
 
+// ExecMetaScanAll serves the forward scan of hbase:meta over [startRow, stopRow) that
+// CacheRegions uses: the meta rows of every region whose name lies in the range, in order.
+func (c *Cluster) ExecMetaScanAll(addr string, startRow, stopRow []byte) (OpResult, []*Region) {
+	if c.Silent[addr] {
+		c.attempt(addr, "hbase:meta,,1", "metascan", "silent")
+		return OpResult{NoAnswer: true}, nil
+	}
+	if cls, ok := c.pop(c.SrvScript, addr); ok {
+		c.attempt(addr, "hbase:meta,,1", "metascan", cls)
+		return OpResult{Class: cls, Stack: "scripted server exception"}, nil
+	}
+	if addr != c.MetaAddr {
+		c.attempt(addr, "hbase:meta,,1", "metascan", ClsNSRE)
+		return OpResult{Class: ClsNSRE, Stack: "hbase:meta is not online on " + addr}, nil
+	}
+	if cls, ok := c.pop(c.Script, "hbase:meta,,1"); ok {
+		c.attempt(addr, "hbase:meta,,1", "metascan", cls)
+		return OpResult{Class: cls, Stack: "scripted meta exception"}, nil
+	}
+	c.attempt(addr, "hbase:meta,,1", "metascan", "ok")
+	rs := append([]*Region(nil), c.Regions...)
+	sort.Slice(rs, func(i, j int) bool {
+		at, ak, ai := splitRegionName(rs[i].Name())
+		bt, bk, bi := splitRegionName(rs[j].Name())
+		return cmpNames(at, ak, ai, bt, bk, bi) < 0
+	})
+	var out []*Region
+	for _, r := range rs {
+		n := r.Name()
+		if bytes.Compare(n, startRow) >= 0 && (len(stopRow) == 0 || bytes.Compare(n, stopRow) < 0) {
+			out = append(out, r)
+		}
+	}
+	c.MetaScans = append(c.MetaScans, MetaScan{StartRow: string(startRow), At: c.Now(), Found: fmt.Sprintf("%d regions", len(out))})
+	return OpResult{}, out
+}
+
 // ZKAttempt notes that a ZooKeeper lookup has started (it may never be answered).
 func (c *Cluster) ZKAttempt() { c.ZKLookups = append(c.ZKLookups, c.Now()) }
 
